@@ -210,5 +210,16 @@ CLAIMS = {
     note="Trusted: z3, the interpreter and string domain in vc/strsym.py, the CPython format/float/int contracts stated there (rounding modelled as 'within 1/2', ties "
          "both ways - a sound over-approximation). Doubles are reals. Not covered deductively: wtcard*/_rdfixed/_rdcomma.",
     technique="symbolic execution of the real source (AST re-parsed every run) over a symbolic decimal-string domain, per decade and sign, all paths; obligations discharged by z3 (LIA/LRA); counterexample doubles replayed on the real functions; bounded card round trips"),
+ "C04": dict(
+    text="Deductive part (z3): the arithmetic on which writer and reader must agree is extracted from the real source by AST on every run - the assignments of L, IS and "
+         "nwords in the nested writers of _write_binary_nonbigmat/_write_ascii_nonbigmat/_write_binary_bigmat and the decoding assignments of _rd_nonbigmat_binary/"
+         "_rd_nonbigmat_ascii/_rd_bigmat_binary: decode(encode(start row, run)) == (start row, run) for every start row and run length and real/complex multiplier; "
+         "the column word count equals what the reader consumes per string; every value handed to a 32-bit struct field fits (outside one recorded region); and "
+         "every ASCII number rendered with the format string the real header code builds has exactly the announced width numlen, for both digit settings, both "
+         "signs and every decade (symbolic string domain; outside one recorded region). Bounded part: real op4.write -> load/dir over binary x byte order x layout x "
+         "real/complex x ndarray/scipy-sparse input x dense/sparse/auto read, several matrices per file, magnitudes to 1e+-308, 65535/65536 rows, runs >= 3000 values. "
+         "Two known findings (D3 ASCII field overflow, D4 nonbigmat string header overflow).",
+    note="Partial: the file plumbing around the kernels is only exercised by the bounded round trips. Trusted: z3, AST extraction (fails closed), printf %E contract.",
+    technique="verification conditions generated from AST-extracted assignments of the real writer/reader (z3 LIA); symbolic string domain for the field width; known-finding regions carved out; bounded write->read round trips"),
 }
 NOT_APPLICABLE = {}
